@@ -103,6 +103,11 @@ class EqvDomain(EventsMixin, Domain):
       # the learned distance of a pair: translation invariant and symmetric
       # in the two points (that is C01's derivation, not repeated here)
       return INV_E
+    if target.key == 'rca._chunk_mean_centering' and \
+            getattr(self, 'centring_certified', False):
+      # every kept row has the mean of its own chunk subtracted (certified
+      # by the structural rules of C09 on this very function)
+      return V(INV_E, elts=(V(INV_E), V(INV_E)))
     if target.key == '_util.check_input':
       # value identity (justified by C05/C06's validator rules)
       x = args[0] if args else kwargs.get('input_data')
